@@ -243,6 +243,15 @@ func init() {
 				}})
 			*nBases++
 		}
+		if *prop == "C15" {
+			// a module whose go.mod has no go directive: whatever lets the go command touch go.mod or go.sum shows here
+			bases = append(bases, GCase{Name: "oldmod", Setup: "oldmod/setup.go", Profile: "simple", Features: []string{"go.mod-without-go-directive"},
+				Files: map[string]string{
+					"oldmod/setup.go": "//go:build convergen\n\npackage oldmod\n\ntype Convergen interface {\n\tConv(*S) *D\n}\n",
+					"oldmod/types.go": "package oldmod\n\ntype S struct{ A string }\ntype D struct{ A string }\n",
+				}})
+			*nBases++
+		}
 		for i := 0; len(bases) < *nBases && i < 20**nBases; i++ {
 			prof := "simple"
 			if i%5 == 4 {
@@ -369,7 +378,11 @@ func init() {
 				for sc := range ch {
 					_ = os.RemoveAll(work)
 					_ = os.MkdirAll(work, 0755)
-					_ = os.WriteFile(filepath.Join(work, "go.mod"), []byte("module exp\n\ngo 1.21\n"), 0644)
+					gomod := "module exp\n\ngo 1.21\n"
+					if sc.Base == "oldmod" {
+						gomod = "module exp\n"
+					}
+					_ = os.WriteFile(filepath.Join(work, "go.mod"), []byte(gomod), 0644)
 					_ = copyTree(filepath.Join(pristine, sc.Base), filepath.Join(work, sc.Base))
 					if sc.Spelling == "dotgo" || sc.Spelling == "dotgoabs" {
 						// the same package under a directory and a file name that contain ".go"
